@@ -296,6 +296,9 @@ func (parEngine) execute(sc *Scenario) *Outcome {
 	} else {
 		out.stat("valid_texts", 1)
 	}
+	out.measure("texts", fnv(text))
+	out.measure("schedule_traces", fnv(fmt.Sprint(schedTrace(res))))
+	out.measure("arrival_orders", fnv(fmt.Sprint(arrival)))
 	out.stat("yields", res.Yields)
 	out.stat("decisions", len(res.Decisions))
 	if res.Uncontrol > 0 {
